@@ -178,7 +178,8 @@ let dump (normalise : bool) (d : db) : string =
       let kvs = sorts (List.map str_kv (kvs_get d.vals id)) in
       Buffer.add_string b (" | " ^ hex_of_z id);
       if isn then
-        Buffer.add_string b (" a=" ^ alias ^ " out=[" ^ zl (sortz (out_edges g id)) ^ "] in=[" ^ zl (sortz (in_edges g id)) ^ "]")
+        Buffer.add_string b (" a=" ^ alias ^ " out=[" ^ zl (sortz (out_edges g id)) ^ "] in=[" ^ zl (sortz (in_edges g id)) ^ "] c="
+                             ^ hex_of_z (edge_count_from g id) ^ "/" ^ hex_of_z (edge_count_to g id))
       else
         Buffer.add_string b (" f=" ^ hex_of_z (edge_from g id) ^ " t=" ^ hex_of_z (edge_to g id)
                              ^ (if alias = "-" then "" else " a=" ^ alias));
